@@ -76,9 +76,6 @@ Definition py_or (a : pyval) (b : unit -> pyval) : pyval :=
 Definition all_ok (l : list pyval) : bool := forallb py_ok l.
 Definition py_tuple (l : list pyval) : pyval := if all_ok l then VTuple l else VErr.
 Definition py_list (l : list pyval) : pyval := if all_ok l then VList l else VErr.
-Definition py_set (l : list pyval) : pyval := if all_ok l then VSet l else VErr.
-Definition py_dict (l : list (pyval * pyval)) : pyval :=
-  if forallb (fun kv => py_ok (fst kv) && py_ok (snd kv)) l then VDict l else VErr.
 Definition py_obj (cls : string) (l : list pyval) : pyval := if all_ok l then VObj cls l else VErr.
 
 (** ** integers *)
@@ -120,15 +117,16 @@ Definition py_le := py_cmp_with (fun c => match c with Gt => false | _ => true e
 Definition py_gt := py_cmp_with (fun c => match c with Gt => true | _ => false end).
 Definition py_ge := py_cmp_with (fun c => match c with Lt => false | _ => true end).
 
-(** equality of hashable atoms (None, bool, int, str, enum members, tuples of those).  Mixed
-    bool/int (True == 1) and everything else is refused ([None]). *)
+(** equality of hashable atoms (None, bool, int, str, members of ONE enum class, tuples of those).  Mixed
+    bool/int (True == 1), an enum member against an int or a member of another class (IntEnum members equal
+    ints), objects (a class may define __eq__) and everything else is refused ([None]). *)
 Fixpoint py_eqb (a b : pyval) : option bool :=
   match a, b with
   | VNone, VNone => Some true
   | VBool x, VBool y => Some (Bool.eqb x y)
   | VInt x, VInt y => Some (x =? y)
   | VStr x, VStr y => Some (String.eqb x y)
-  | VEnum c1 n1 _, VEnum c2 n2 _ => Some (String.eqb c1 c2 && String.eqb n1 n2)
+  | VEnum c1 n1 _, VEnum c2 n2 _ => if String.eqb c1 c2 then Some (String.eqb n1 n2) else None
   | VTuple l1, VTuple l2 =>
       (fix go (l1 l2 : list pyval) : option bool :=
          match l1, l2 with
@@ -138,9 +136,8 @@ Fixpoint py_eqb (a b : pyval) : option bool :=
          | _, _ => Some false
          end) l1 l2
   | VNone, (VInt _ | VStr _ | VEnum _ _ _ | VTuple _) | (VInt _ | VStr _ | VEnum _ _ _ | VTuple _), VNone => Some false
-  | VInt _, (VStr _ | VEnum _ _ _ | VTuple _) | (VStr _ | VEnum _ _ _ | VTuple _), VInt _ => Some false
-  | VStr _, (VEnum _ _ _ | VTuple _) | (VEnum _ _ _ | VTuple _), VStr _ => Some false
-  | VEnum _ _ _, VTuple _ | VTuple _, VEnum _ _ _ => Some false
+  | VInt _, (VStr _ | VTuple _) | (VStr _ | VTuple _), VInt _ => Some false
+  | VStr _, VTuple _ | VTuple _, VStr _ => Some false
   | _, _ => None
   end.
 Definition py_eq (a b : pyval) : pyval := match py_eqb a b with Some r => VBool r | None => VErr end.
@@ -274,6 +271,16 @@ Fixpoint mem_go (x : pyval) (l : list pyval) : option bool :=
   | [] => Some false
   | y :: l' => match py_eqb y x with Some true => Some true | Some false => mem_go x l' | None => None end
   end.
+(** set and dict displays: the elements / keys must be pairwise different hashable atoms (Python would silently
+    drop duplicates; here a duplicate, or an element whose equality is not implemented, is refused) *)
+Fixpoint distinct_go (l : list pyval) : bool :=
+  match l with
+  | [] => true
+  | x :: l' => match mem_go x l' with Some false => distinct_go l' | _ => false end
+  end.
+Definition py_set (l : list pyval) : pyval := if all_ok l && distinct_go l then VSet l else VErr.
+Definition py_dict (l : list (pyval * pyval)) : pyval :=
+  if all_ok (map fst l) && all_ok (map snd l) && distinct_go (map fst l) then VDict l else VErr.
 Definition py_in (x c : pyval) : pyval :=
   if py_ok x then
     match c with
